@@ -31,8 +31,14 @@ func (cs ClientState) CheckMsg(msg sdk.Msg) error {
 }
 
 func (cs ClientState) Validate() error {
-	if _, err := sdk.AccAddressFromBech32(cs.TssAddress); err != nil {
+	addr, err := sdk.AccAddressFromBech32(cs.TssAddress)
+	if err != nil {
 		return sdkerrors.Wrapf(sdkerrors.ErrInvalidAddress, "string could not be parsed as address: %v", err)
+	}
+	// the address is compared with a signer's canonical string: another spelling of the same address
+	// (bech32 also accepts all upper case) could never match
+	if addr.String() != cs.TssAddress {
+		return sdkerrors.Wrapf(sdkerrors.ErrInvalidAddress, "address %s is not in its canonical form %s", cs.TssAddress, addr.String())
 	}
 	return nil
 }
